@@ -4,6 +4,7 @@ import (
 	"go/constant"
 	"go/token"
 	"go/types"
+	"strings"
 
 	"golang.org/x/tools/go/ssa"
 
@@ -287,6 +288,86 @@ func runC03(c *kit.Ctx) {
 	}
 
 	runReaderContract(c, k)
+
+	// ---- R03.6 the read-cache key identifies torrent, piece and cache block
+	{
+		fPeerID := c.Field("torrent", "torrent", "peerID")
+		cpNew := c.FuncObj("internal/cachedpiece", "New")
+		newTorrent := c.Func("torrent", "newTorrent")
+		prefixFn := c.Func("torrent", "(*torrent).copyPeerIDPrefix")
+		// (a) the key prefix handed to cachedpiece.New is the torrent's own peer id
+		n := 0
+		for _, s := range sortSites(c.CallSites(cpNew)) {
+			n++
+			a := kit.Canon(s.Instr.Common().Args[3])
+			c.Check(a.IsField(fPeerID), "R03.6", k.key(s.Fn, "cache key prefix"), posOf(s.Instr),
+				"cache key prefix is torrent.peerID", "read-cache key prefix "+a.String()+" is not the torrent's own peer id: blocks of different torrents can collide in the session-wide cache")
+		}
+		c.Floor("R03.6", "cachedpiece.New sites", n, 2)
+		// (b) the peer id gets per-torrent entropy: its bytes are written only by
+		// copyPeerIDPrefix (prefix) and by crypto/rand.Read in newTorrent
+		randRead := c.FuncObj("crypto/rand", "Read")
+		rnd := 0
+		for _, fn := range c.ModuleFunctions() {
+			kit.Instrs(fn, func(ins ssa.Instruction) {
+				cc := kit.CallOf(ins)
+				if cc == nil {
+					return
+				}
+				var dst ssa.Value
+				switch {
+				case isBuiltin(cc, "copy"):
+					dst = cc.Args[0]
+				case kit.CalleeObj(cc) == randRead:
+					dst = cc.Args[0]
+				case cc.StaticCallee() != nil && strings.HasPrefix(cc.StaticCallee().Name(), "PutUint"):
+					dst = cc.Args[len(cc.Args)-2]
+				}
+				if dst == nil || !kit.Canon(dst).Mentions(func(e *kit.Expr) bool { return e.IsField(fPeerID) }) {
+					return
+				}
+				key := k.key(fn, "write torrent.peerID bytes")
+				switch {
+				case kit.CalleeObj(cc) == randRead && fn == newTorrent:
+					rnd++
+					c.OK("R03.6", key, posOf(ins), "random part of the peer id drawn per torrent (crypto/rand.Read in newTorrent)")
+				case fn == prefixFn && isBuiltin(cc, "copy"):
+					c.Present("R03.6", key, posOf(ins), "client prefix")
+				default:
+					c.Bad("R03.6", key, posOf(ins), "torrent.peerID bytes written from %s: the peer id is the only per-torrent component of the read-cache key (and the torrent's identity towards trackers); it must be drawn per torrent", kit.Canon(ins.(ssa.Value)))
+				}
+			})
+		}
+		c.Check(rnd >= 1, "R03.6", kit.FuncName(newTorrent)+"/per-torrent entropy", newTorrent.Pos(),
+			"newTorrent fills the peer id suffix with crypto/rand.Read", "newTorrent no longer draws a per-torrent random peer id: the read-cache key does not separate torrents any more")
+		// (c) the key also carries the piece index and the cache block number
+		rb := c.TryFunc("internal/cachedpiece", "(*CachedPiece).readBlock")
+		if rb == nil {
+			rb = c.Func("internal/cachedpiece", "(*CachedPiece).ReadAt")
+		}
+		fCPid := c.Field("internal/cachedpiece", "CachedPiece", "peerID")
+		fPIndex := c.Field("internal/piece", "Piece", "Index")
+		hasID, hasIdx, hasBlk := false, false, false
+		kit.Instrs(rb, func(ins ssa.Instruction) {
+			cc := kit.CallOf(ins)
+			if cc == nil {
+				return
+			}
+			if isBuiltin(cc, "copy") && kit.Canon(cc.Args[1]).IsField(fCPid) {
+				hasID = true
+			}
+			if cc.StaticCallee() != nil && cc.StaticCallee().Name() == "PutUint32" {
+				v := kit.Canon(cc.Args[len(cc.Args)-1])
+				if v.IsField(fPIndex) {
+					hasIdx = true
+				} else if v.Mentions(func(e *kit.Expr) bool { return e.Kind == "binop" && e.Op == token.QUO }) {
+					hasBlk = true
+				}
+			}
+		})
+		c.Check(hasID && hasIdx && hasBlk, "R03.6", kit.FuncName(rb)+"/key components", rb.Pos(),
+			"cache key = peer id ++ piece index ++ block number", "read-cache key lacks the peer id, the piece index or the cache block number")
+	}
 
 	// ---- R03.5 queue discipline
 	{
